@@ -306,10 +306,12 @@ def _split_lines(out, n, cases):
     pos = 0
     # compiler chatter ("#1 (Warning) The file `x.c' will now be out of date.") precedes the program's output
     data = re.sub(rb"(?m)^#\d+ \((?:Warning|Remark)\)[^\n]*\n", b"", out)
-    # a fault of the evaluator ends the output: "Program fault (segmentation violation).#1 (Error) ..."
-    i = data.find(b"Program fault")
-    if i >= 0:
-        data = data[:i]
+    # a fault of the evaluator ends the output: "Program fault (segmentation violation).#1 (Error) ...",
+    # "Compiler bug...Bug: BCall: X unimplemented...", "Unhandled Exception: ..." -- the case being evaluated
+    # has no complete line and is reported as the one on which the evaluator stopped
+    cut = [i for i in (data.find(m) for m in (b"Program fault", b"Compiler bug", b"Unhandled Exception")) if i >= 0]
+    if cut:
+        data = data[:min(cut)]
         if not data.endswith(b"\n"):
             data = data[:data.rfind(b"\n") + 1]
     for c in cases:
